@@ -50,6 +50,21 @@ var checks = map[string]*checkCfg{
 		TimeMeasure: "operations executed (no clock in this surface)",
 		StateRule:   "distinct (answering step 1-5, database size bucket, #families in query, script set?, repeated lookup?) tuples and cache sizes",
 	},
+	"C16": {
+		Property: "C16", Engine: "indexsim", Level: "fault_enumeration",
+		Runs: map[string]int{"quick": 3000, "thorough": 60000}, Chunk: 8, RunTimeoutS: 300,
+		Rule: "one case = one seeded run of one of four families: (history) 3-15 file-system mutations (add/remove/replace/touch/rename/mkdir/rmtree/symlink, half-copied fonts, junk files, overlapping and symlinked roots) with every mtime set by the simulated clock, interleaved with boots through the real refreshSystemFontsIndex, crashes of the cache write (5 crash models at seeded write-call/byte points), corruption at rest and write faults; (clockfault) the same plus same-mtime replaces, clock jumps backwards and extreme stamps; (exhaustive) a scanned index whose every prefix length and every single byte (0x00, 0xFF, one bit) is decoded; (synthetic) round trip of synthetic indexes (empty sets, 255 scripts, 65535-byte strings, extreme stamps, NaN aspects) with strided enumeration. distinct = distinct hash of the generated case; non-trivial = a fault fired (crash image, corruption, write fault, mtime collision), an index entry was reused across boots, a sub-space was enumerated or a non-empty synthetic index round-tripped.",
+		Assumptions: []string{
+			"a boot with no cache file (same real code) and scanFontFootprints(nil, dirs) are the reference for incremental refresh",
+			"tmpfs round-trips os.Chtimes nanosecond stamps (every stamp is set by the simulator; directories get a constant stamp)",
+			"stored-byte corruption (bit flips, zeroed/torn sectors) that decodes to a different well-formed index is allowed by the property and only counted; if such an index then poisons the next refresh that is counted too, not reported",
+			"a path whose content changed while its mtime stayed what the last boot saw may keep its previous entry (path+mtime is the documented reuse key)",
+		},
+		Real:        []string{"fontscan/serialize.go (serializeTo, deserializeIndex, file wrappers)", "fontscan/scan.go + scandir.go (scanFontFootprints, consume, WalkDir)", "refreshSystemFontsIndex incl. assertValid", "footprint construction", "kernel tmpfs as directory tree"},
+		Stub:        []string{"cache-file device during crash/write-fault replays (faultdisk.WFile + crash models)", "clock (os.Chtimes from a simulated counter)", "font directory list (hook VerifFontDirs)", "logger (no-op)"},
+		TimeMeasure: "span of the simulated mtime clock in ns (simclock_span); boots executed",
+		StateRule:   "distinct (boot: #files bucket, #entries reused bucket, #rescanned bucket, old cache readable) and (crash model, decode outcome) tuples",
+	},
 }
 
 // order in which `check all` runs
